@@ -82,7 +82,7 @@ def replay(scripts, work, name, workers=16, shard=30000, race=False, watchdog=10
 
 def _validate_one(args):
     module, cfgname, trace, tracecfg, work, idx = args
-    w = os.path.join(work, "tv%d" % idx)
+    w = os.path.join(work, "tv-%s-%d" % (os.path.basename(trace), idx))
     os.makedirs(w, exist_ok=True)
     env_props = []
     os.environ_copy = None
